@@ -1,0 +1,42 @@
+//go:build verif
+
+// Contracts for package dig, checked by /verif. Comments only.
+package dig
+
+// Well-formed type tree (shape) and selected-leaf positions below n. The
+// recursion is over the finite tree; each definition is unfolded once at each
+// use site.
+//@ spec rec wfs(t atype) bool = (t.kind == 's' || t.kind == 'd' || t.kind == 'a' || t.kind == 't')
+//@ +  && 0 <= t.size && t.size < 0x10000000000
+//@ +  && (t.kind == 'a' ==> t.elem != nil && wfs(*t.elem) && ((*t.elem).static ==> (*t.elem).size >= 32))
+//@ +  && (t.kind == 't' ==> (forall i int :: 0 <= i && i < len(t.fields) ==> wfs(t.fields[i])))
+//@ spec rec wfp(t atype, n int) bool = (t.sel ==> 0 <= t.pos && t.pos < n)
+//@ +  && (t.kind == 'a' && t.elem != nil ==> wfp(*t.elem, n))
+//@ +  && (t.kind == 't' ==> (forall i int :: 0 <= i && i < len(t.fields) ==> wfp(t.fields[i], n)))
+
+// Representation invariant of a Result: every row of the collection has ncols cells.
+//@ spec opaque rowlen(rs []row, k int) int = len(rs[k])
+//@ spec resInv(r *Result) bool = 0 <= r.n && r.n <= len(r.collection) && 0 <= r.ncols && r.ncols < 0x10000000000
+//@ +  && (forall k int :: 0 <= k && k < len(r.collection) ==> rowlen(r.collection, k) == r.ncols)
+
+//@ func (atype).hasSelect props=C10
+//@   requires wfs(t)
+//@ func (atype).hasKind props=C10
+//@   requires wfs(t)
+
+//@ func (*Result).GetRow props=C10
+//@   requires resInv(r)
+//@   ensures [frame] r.ncols == old(r.ncols) && r.n == old(r.n) + 1 && r.t == old(r.t)
+//@   ensures [n] 0 <= r.n && r.n <= len(r.collection)
+//@   ensures [rows] forall k int :: 0 <= k && k < len(r.collection) ==> rowlen(r.collection, k) == r.ncols
+//@   ensures len(result) == r.ncols
+
+// C10: no precondition on input at all. No panic, no read beyond len(input)
+// (strict_slices: every slice expression must end within len, not cap).
+//@ func scan props=C10 strict_slices
+//@   requires res != nil && resInv(res) && len(r) == res.ncols && wfs(t) && wfp(t, res.ncols)
+//@   ensures [inv] resInv(res) && res.ncols == old(res.ncols)
+//@   loop#0 invariant resInv(res) && res.ncols == old(res.ncols) && len(r) == res.ncols
+//@   loop#0 invariant 0 <= pos && pos <= len(input) + 0x10000000000 && 0 <= start && start <= 32 && 0 <= i
+//@   loop#1 invariant resInv(res) && res.ncols == old(res.ncols)
+//@   loop#1 invariant 0 <= pos && pos <= len(input) + 0x10000000000
